@@ -17,6 +17,10 @@ CLAIMED = {
    technique="polynomial value numbering of the matrix routines over SSA (exact rationals, uninterpreted trig) compared with specification matrices + AST/SSA checks of vocabulary, arity, argument order, composition order and origin conjugation",
    text="Decides that each routine of package matrix, as a polynomial in its inputs, equals the specification matrix (and in-place operations equal right multiplication by the constructor), that SVG transform.applyTo right-multiplies by the specified matrix per kind with degrees converted to radians, and that the CSS/SVG plumbing (names, arities, argument positions, left-to-right composition, transform-origin conjugation, angle-unit table) is as specified. Float rounding is outside the abstraction; the matrix finally handed to the backend is not traced further than getMatrix/applyTo.",
    ref="4 C17"),
+ "C16": dict(
+   technique="must-precede / no-way-back analysis on the SSA control-flow graph of drawStackingContext's closures + path-condition reachability over all orderings/truth assignments for the z-index partition and the stacking-context predicate + sort-call and comparator inspection",
+   text="Decides that the Appendix E steps occur in order on every path of drawStackingContext (background, border, negative contexts, blocks, floats, inline content, cells, zero and positive contexts, outlines), that child contexts are partitioned by the sign of z-index and sorted stably with a strict comparison, and that a box starts a stacking context exactly under the four CSS conditions (all 32 assignments). How boxes are dispatched into the block/float/cell lists and the scoping of opacity/transform groups are not decided.",
+   ref="4 C16"),
  "C20": dict(
    technique="constant propagation of the separator table's init loops (cross product of literals) compared with the CSS Syntax §9 fusing-pair oracle + vocabulary agreement with Kind.String() + ParseError kind coverage + escaper case sets",
    text="Decides necessary conditions of serialize/re-tokenize round-tripping: every fusing pair of adjacent token kinds gets a separator, no row of the table is dead through a misspelt kind, every token-level ParseError kind is serialisable, and the string/url/name escapers cover the required characters. Identifier-start escaping, the scientific-notation ambiguity and number representation are not decided.",
